@@ -126,7 +126,7 @@ func DrawConfig(rt *rapid.T, p *Profile) Config {
 		asgMin := int64(rapid.IntRange(0, 4).Draw(rt, "asgMin"))
 		asgMax := asgMin + int64(rapid.IntRange(1, 14).Draw(rt, "asgMaxGap"))
 		gs.ASGMin, gs.ASGMax = asgMin, asgMax
-		auto := p.Auto == 1 && rapid.IntRange(0, 3).Draw(rt, "auto") == 0
+		auto := (p.Auto == 1 && rapid.IntRange(0, 3).Draw(rt, "auto") == 0) || (p.Auto == 2 && rapid.Bool().Draw(rt, "auto"))
 		if !auto {
 			if p.MaxBelowASG == 1 {
 				gs.Opts.MinNodes, gs.Opts.MaxNodes = int(asgMin), int(asgMax)
@@ -568,6 +568,8 @@ func (w *World) DrawAction(rt *rapid.T, p *Profile) (Action, string) {
 		return Action{Op: "clearPods", Group: g}, "clearPods"
 	case "zeroOut":
 		return Action{Op: "zeroOut", Group: g}, "zeroOut"
+	case "dupNode": // two node objects for one instance
+		return Action{Op: "oddNode", Group: g, Key: "dupprov", N: rapid.IntRange(0, 20).Draw(rt, "which")}, "dupNode"
 	case "noProvNode": // a node that registered before the cloud controller set its provider id
 		return Action{Op: "oddNode", Group: g, Key: "emptyprov", N: rapid.IntRange(0, 60).Draw(rt, "age")}, "noProvNode"
 	case "lateBind": // pods wait, a node comes up for them, they are bound to it (pods older than their node)
@@ -669,6 +671,42 @@ func (w *World) DrawAction(rt *rapid.T, p *Profile) (Action, string) {
 			{Op: "addPods", Group: g, Pods: []PodSpec{{Group: g, Via: via, CPU: int64(rapid.IntRange(1, 3000).Draw(rt, "cpu")), Mem: int64(rapid.IntRange(1, 4000).Draw(rt, "mem")) * 1_000_000}}},
 			{Op: "scan", Flag: true},
 		}}, "tinyThenZero"
+	case "dueProtected": // an annotated node reaches the point where it would be removed; one API call about it may fail
+		names := w.GroupNodeNames(g)
+		if len(names) > 0 {
+			n := rapid.SampledFrom(names).Draw(rt, "node")
+			o := &w.Cfg.Groups[g].Opts
+			back := o.SoftDeleteGracePeriodDuration()
+			if rapid.Bool().Draw(rt, "pastHard") {
+				back = o.HardDeleteGracePeriodDuration()
+			}
+			back += time.Duration(rapid.IntRange(1, 90).Draw(rt, "past")) * time.Second
+			seq := []Action{{Op: "annotate", Node: n, Val: rapid.SampledFrom([]string{"keep", "true", "false", " "}).Draw(rt, "val")},
+				{Op: "taint", Node: n, Key: ref.TaintKey, Val: fmt.Sprint(time.Now().Add(-back).Unix()), Effect: "NoSchedule"}, {Op: "clearNode", Node: n}}
+			if k := rapid.SampledFrom([]string{"", sim.KGet, sim.KGet, sim.KUpdate, sim.KDelete}).Draw(rt, "failing"); k != "" {
+				seq = append(seq, Action{Op: "fault", Faults: []sim.Fault{{Kind: k, Nth: -1, Node: n}}})
+			}
+			seq = append(seq, Action{Op: "scan", Flag: true})
+			return Action{Op: "seq", Seq: seq}, "dueProtected"
+		}
+	case "neighbourFails": // an earlier group fails non-fatally (more nodes than its maximum) in the scan in which this group's cloud bounds have moved
+		if g > 0 {
+			h := rapid.IntRange(0, g-1).Draw(rt, "failing")
+			mx := w.Cfg.Groups[h].Opts.MaxNodes
+			if mx == 0 {
+				mx = int(w.ASG(h).Max)
+			}
+			extra := mx - len(w.GroupNodeNames(h)) + 1
+			if extra > 0 && extra <= 20 {
+				min := rapid.IntRange(0, 5).Draw(rt, "min")
+				tp, _ := w.drawTargetPods(rt, g, "zero", "belowL", "aboveS", "farAboveS")
+				return Action{Op: "seq", Seq: []Action{
+					{Op: "launch", Group: h, N: extra, Ages: []int64{0}, Flag: true},
+					{Op: "asgEdit", Group: g, N: min, M: min + rapid.IntRange(1, 14).Draw(rt, "maxGap")},
+					tp, {Op: "scan", Flag: true},
+				}}, "neighbourFails"
+			}
+		}
 	case "starveAfterScaleUp": // capacity that was requested arrives, the cool-down ends, a pod too big for any free slot is pending
 		via := "selector"
 		if w.Cfg.Groups[g].Opts.Name == controller.DefaultNodeGroup {
